@@ -129,7 +129,7 @@ static int cmdRun(std::map<std::string, std::string>& a)
 
     std::unordered_set<uint64_t> nontrivial, interleavings, states;
     std::map<std::string, uint64_t> probes, faults;
-    uint64_t evaluations = 0, simTime = 0, deliveries = 0, apiCalls = 0, violations = 0;
+    uint64_t evaluations = 0, simTime = 0, deliveries = 0, apiCalls = 0, violations = 0, maxRunMs = 0;
     int samples = 0;
     const auto t0 = std::chrono::steady_clock::now();
     // the wall clock only decides when the batch stops, never what a run does
@@ -141,9 +141,13 @@ static int cmdRun(std::map<std::string, std::string>& a)
         printf("START %llu %llu\n", static_cast<unsigned long long>(idx), static_cast<unsigned long long>(runSeed(seed, prop, idx)));
         fflush(stdout);
         Plan plan = generate(prop, tier, seed, idx);
-        alarm(30);
+        const auto r0 = std::chrono::steady_clock::now();
+        alarm(120);  // a hang is a violation; normal runs take milliseconds, the slowest (C09 wrap runs, C19) a few seconds
         RunResult r = execForProp(plan);
         alarm(0);
+        const uint64_t runMs = static_cast<uint64_t>(std::chrono::duration_cast<std::chrono::milliseconds>(std::chrono::steady_clock::now() - r0).count());
+        if (runMs > maxRunMs)
+            maxRunMs = runMs;
         ++evaluations;
         const uint64_t ph = planHash(plan);
         if (isNontrivial(prop, r))
@@ -188,7 +192,7 @@ static int cmdRun(std::map<std::string, std::string>& a)
     }
     std::ostringstream js;
     js << "{\"evaluations\":" << evaluations << ",\"violations\":" << violations << ",\"sim_time_us\":" << simTime << ",\"deliveries\":" << deliveries
-       << ",\"api_calls\":" << apiCalls << ",\"wall_s\":" << wall << ",\"next_idx\":" << idx << ",\"probes\":{";
+       << ",\"api_calls\":" << apiCalls << ",\"wall_s\":" << wall << ",\"next_idx\":" << idx << ",\"max_run_ms\":" << maxRunMs << ",\"probes\":{";
     bool first = true;
     for (auto& kv : probes)
     {
